@@ -96,7 +96,9 @@ func Padding(n, kind int) []byte {
 	return b.Bytes()
 }
 
-var separators = []string{" ", "\t", "\n", "\r\n", "  ", " \n", "\n\n", " // c\n", "/* c */", " /* multi\nline */ ", "\t\t", "\n  ", "//\n", " /**/ "}
+var separators = []string{" ", "\t", "\n", "\r\n", "  ", " \n", "\n\n", " // c\n", "/* c */", " /* multi\nline */ ", "\t\t", "\n  ", "//\n", " /**/ ",
+	// comments whose text looks like specification text, with tabs, quotes and punctuation inside
+	"//\t| x \"y\"\n", " // a\tb ; = @left <r> {{ }} \n", "/*\t*/", "/* a\n\t* b = \"c\" ; */", "//\t\n", " /* @right\t\"(\" */ "}
 
 func needsSep(l, r Tok) bool {
 	if IsWordy(l.Kind) && IsWordy(r.Kind) {
